@@ -4,6 +4,8 @@ mod util;
 mod session;
 #[cfg(feature = "hooks")]
 mod handle;
+#[cfg(feature = "hooks")]
+mod msgpack;
 
 use std::fs::File;
 use std::io::{BufWriter, Write};
@@ -41,6 +43,19 @@ fn main() {
 				"cases": st.cases, "exhaustive_cases": st.exhaustive_cases, "random_cases": st.random_cases,
 				"op_hist": st.op_hist, "final_hist": st.fin_hist,
 				"distinct_results": st.distinct_results, "nontrivial": st.nontrivial, "samples": st.samples, "oracle_failures": st.oracle_failures,
+			});
+			println!("{j}");
+		}
+		#[cfg(feature = "hooks")]
+		"msgpack" => {
+			let mut cw = BufWriter::new(File::create(format!("{out}/cases.txt")).unwrap());
+			let mut iw = BufWriter::new(File::create(format!("{out}/impl.txt")).unwrap());
+			let st = msgpack::generate_and_run(seed, &tier, &mut cw, &mut iw);
+			cw.flush().unwrap();
+			iw.flush().unwrap();
+			let j = serde_json::json!({
+				"cases": st.cases, "kinds": st.kinds, "verdicts": st.verdicts, "nontrivial": st.nontrivial,
+				"oracle_failures": st.oracle_failures, "samples": st.samples, "exhaustive_len": st.exhaustive_len,
 			});
 			println!("{j}");
 		}
